@@ -408,6 +408,15 @@ func RunPlans(f *Factory, plans io.Reader, trace io.Writer, names []string, shar
 					if len(c.P.Parts) == 0 {
 						kind = "sub:/"
 					}
+
+					if c.N == 2 {
+						q := c.Q.Render()
+						if len(c.Q.Parts) == 0 {
+							q = "/"
+						}
+
+						kind += "+" + q
+					}
 				case kind == "failfs" && len(c.Flag) > 1:
 					kind = fmt.Sprintf("failfs:%s:%d", c.Flag[1], c.N)
 				}
